@@ -32,7 +32,7 @@ REGISTRY = {
     "C21": ("scopes", {"rel": []}),
     "C22": ("tsolver", {"rel": ["h_tsolver"]}),
     "C23": ("procmon", {"rel": []}),
-    "C24": ("threads", {"tsan": ["h_threads"], "asan": ["h_threads"]}),
+    "C24": ("threads", {"tsan": ["h_threads"], "asan": ["h_threads"], "rel": ["h_threads"]}),
     "C25": ("threads", {"tsan": ["h_stop"], "rel": ["h_stop"]}),
     "C26": ("trace", {"rel": []}),
     "C28": ("apiharness", {"rel": ["h_terms"]}),
